@@ -49,6 +49,7 @@ func (d c18) Generate(r *core.Rand, tier string, idx uint64) *core.Case {
 	}
 	c := &core.Case{Property: "C18", Engine: "git", Config: map[string]int{}, Flags: map[string]bool{}, Strs: map[string]string{}}
 	c.Flags["odd"] = r.Chance(0.5)
+	c.Flags["modes"] = r.Chance(0.3) // some files are executables or symbolic links
 	c.Config["upPath"] = r.Intn(3)   // 0 none, 1 "sub", 2 "metadata"
 	c.Config["downPath"] = r.Intn(4) // vendor | vendor/ | deps/up | deps/up/
 	c.Config["second"] = r.Intn(3)   // 0: one directive; 1: second directive copying the whole upstream tree; 2: second directive copying another upstream subtree
@@ -83,6 +84,9 @@ func (d c18) Generate(r *core.Rand, tier string, idx uint64) *core.Case {
 	return c
 }
 
+// fileModes: when set, pickFiles makes some files executables or symbolic links.
+var fileModes bool
+
 func pickFiles(r *core.Rand, names []string, must []string, salt int) map[string]string {
 	out := map[string]string{}
 	for _, m := range must {
@@ -100,6 +104,14 @@ func pickFiles(r *core.Rand, names []string, must []string, salt int) map[string
 		}
 		if !conflict {
 			out[nm] = fmt.Sprintf("c-%d-%d", salt, r.Intn(50))
+			if fileModes {
+				switch r.Intn(5) {
+				case 0:
+					out[nm] = gitx.ExecPrefix + out[nm]
+				case 1:
+					out[nm] = gitx.LinkPrefix + "../target-" + fmt.Sprint(r.Intn(9))
+				}
+			}
 		}
 	}
 	return out
@@ -127,6 +139,8 @@ func (d c18) Execute(c *core.Case) (res *core.Result) {
 	defer sc.Close()
 	gitx.SetupProcessEnv(sc.Dir)
 	r := core.NewRand(c.Seed ^ 0xC18)
+	fileModes = c.Flags["modes"]
+	defer func() { fileModes = false }()
 	names := plainNames
 	if c.Flags["odd"] {
 		names = oddNames
@@ -222,6 +236,7 @@ func (d c18) Execute(c *core.Case) (res *core.Result) {
 		}
 	}
 	outcomes := []string{}
+	modeBlind, modeFindings := false, 0
 	propagations, upChanges := 0, 0
 	changedBetween := false
 	var lastPropAfterChange bool
@@ -373,7 +388,16 @@ func (d c18) Execute(c *core.Case) (res *core.Result) {
 						}
 					}
 				}
-				// compare
+				// compare (once the loss of entry modes has been reported for this case, modes are left
+				// out of the later comparisons so that everything else is still checked)
+				if modeBlind {
+					for k, v := range expected {
+						expected[k] = blobOf(v)
+					}
+					for k, v := range after {
+						after[k] = blobOf(v)
+					}
+				}
 				diff := []string{}
 				bystander := false
 				for k, v := range expected {
@@ -405,6 +429,24 @@ func (d c18) Execute(c *core.Case) (res *core.Result) {
 					}
 				}
 				sort.Strings(diff)
+				if len(diff) > 0 {
+					class := "subtree-mismatch"
+					if bystander {
+						class = "bystander-path-changed"
+					}
+					// do the trees differ in entry modes only (same paths, same blobs)?
+					modesOnly := len(expected) == len(after)
+					for k, v := range expected {
+						if a, ok := after[k]; !ok || blobOf(a) != blobOf(v) {
+							modesOnly = false
+						}
+					}
+					if modesOnly {
+						viol(class, fmt.Sprintf("after propagation the downstream tree has the expected paths and contents but different entry modes (executables / symbolic links became regular files): %s", strings.Join(headN(diff, 4), "; ")), "only-entry-modes-differ")
+						modeBlind, modeFindings = true, modeFindings+1
+						diff = nil
+					}
+				}
 				if len(diff) > 0 {
 					class := "subtree-mismatch"
 					if bystander {
@@ -443,7 +485,7 @@ func (d c18) Execute(c *core.Case) (res *core.Result) {
 				outcomes = append(outcomes, fmt.Sprintf("prop:changed%d", len(newEntries)))
 			}
 		}
-		if len(res.Violations) > 0 {
+		if len(res.Violations) > modeFindings {
 			break
 		}
 	}
@@ -462,6 +504,14 @@ func (d c18) Execute(c *core.Case) (res *core.Result) {
 	res.Sample = map[string]any{"upstream_path": upPath, "downstream_path": downPath, "upstream_files": sortedKeys(upFiles), "downstream_files": sortedKeys(downFiles), "steps": outcomes}
 	_ = os.Getpid
 	return res
+}
+
+// blobOf strips the mode from a ListTree value.
+func blobOf(v string) string {
+	if _, id, ok := strings.Cut(v, ":"); ok {
+		return id
+	}
+	return v
 }
 
 func nameClass(k string) string {
